@@ -73,6 +73,31 @@ for case in range(300):
     for k, v in ends.items():
         check(max(abs(a - b) for a, b in zip(v, ends["abs"])) < 1e-6, "re-encoding %s ends at %r, absolute at %r" % (k, v, ends["abs"]))
 
+# the harness's models of OctoPrint's side of the boundary, against the installed OctoPrint
+check(tokenize("G1\tX1\tY 2") == ("G1", None, [("X", 1.0), ("Y", 2.0)]), "reader: tabs are blanks")
+try:
+    sys.path.insert(0, os.environ.get("VERIF_REPO", "/repo"))
+    from vp.harness import hook_gcode, setting_bool, RAW_BOOLS, _plugin_env
+    from vp.monitors.stream import strip_comment
+    from octoprint.util.comm import gcode_and_subcode_for_cmd, strip_comment as octo_strip
+    for cmd in ["G1 X1", "G01 X1", "G00", "M0117 hi", "G92.1", "M204.12 S1", "T1", "T", "G028 X", "  G1 X5", "G1X5Y6", "M117 G1 X5",
+                "hello", "", "X5 G1", "N5 G1 X1", "G", "G.1"]:
+        want = gcode_and_subcode_for_cmd(cmd)
+        got = hook_gcode(cmd)
+        if want[0] is None and got[0] is not None and cmd.lstrip()[:1] in "Nn":
+            continue      # OctoPrint sends no line numbers through the hook
+        check(tuple(want) == tuple(got), "hook_gcode(%r) = %r, OctoPrint says %r" % (cmd, got, want))
+    for line in ["G1 X1 ; c", "M117 a\\; b ; c", "M117 a\\\\; b", ";", "G1 X1", "M117 \\", "a;b;c"]:
+        check(octo_strip(line) == strip_comment(line), "strip_comment(%r)" % (line,))
+    env = _plugin_env()
+    st = env["settings"]()
+    for val in RAW_BOOLS + [None, 0.0, "y", "on", "", "No", "YES", 3.5]:
+        st.set(["plugins", "vp_selftest", "flag"], val, force=True)
+        got = st.getBoolean(["plugins", "vp_selftest", "flag"])
+        check(bool(got) == setting_bool(val), "setting_bool(%r) = %r, OctoPrint reads %r" % (val, setting_bool(val), got))
+except ImportError as exc:
+    print("boundary self-test skipped (OctoPrint or the plugin not importable): %r" % (exc,))
+
 print("reference printer self-test: %d failures" % len(fails))
 for f in fails[:20]:
     print("  ", f)
